@@ -86,6 +86,23 @@ func checkRequest(t kit.Transfer, run kit.Running, call world.Call) error {
 			return fmt.Errorf("payload names Hyperlane but the call went to %q", call.Site)
 		}
 		m := call.Req.(*warptypes.MsgRemoteTransfer)
+		// the token the bridge is asked to move must be the token of the post-action denomination:
+		// a request naming the token of another denomination asks warp to move other coins than
+		// the transfer carries (every token of the environment is known to the harness)
+		if w := prodW; w != nil {
+			tokDenom := ""
+			for d, id := range w.HypToken {
+				if bytes.Equal(id, m.TokenId.Bytes()) {
+					tokDenom = d
+				}
+			}
+			if bytes.Equal(w.HypSynth, m.TokenId.Bytes()) {
+				tokDenom = world.SynthDenom
+			}
+			if tokDenom != "" && tokDenom != run.Denom {
+				return fmt.Errorf("the Hyperlane request names the token of %s while the transfer carries %s: the bridge is asked to move coins the transfer does not carry", tokDenom, run.Denom)
+			}
+		}
 		gas := "0"
 		if r.GasLimit != "" {
 			gas = r.GasLimit
